@@ -33,6 +33,7 @@ int get_register_avr8(const char *token)
       if (token[n] == 0) return r;
       if (token[n] < '0' || token[n] > '9') return -1;
       r = (r * 10) + (token[n] - '0');
+      if (r > 31) return -1;
       n++;
     }
   }
